@@ -28,6 +28,9 @@ size_t v_fwrite(const void *, size_t, size_t, FILE *);
 int v_fileno(FILE *);
 int v_ftruncate(int, off_t);
 int v_fsync(int);
+int v_rename(const char *, const char *);
+int v_unlink(const char *);
+int v_remove(const char *);
 #ifdef feof
 #undef feof
 #endif
@@ -69,6 +72,9 @@ int v_fsync(int);
 #define fileno(...)   v_fileno(__VA_ARGS__)
 #define ftruncate(...) v_ftruncate(__VA_ARGS__)
 #define fsync(...)    v_fsync(__VA_ARGS__)
+#define rename(...)   v_rename(__VA_ARGS__)
+#define unlink(...)   v_unlink(__VA_ARGS__)
+#define remove(...)   v_remove(__VA_ARGS__)
 
 /* identity / system (vsys.c) */
 uid_t v_getuid(void); uid_t v_geteuid(void); gid_t v_getgid(void); gid_t v_getegid(void);
